@@ -158,6 +158,28 @@ impl<'a> ZoneHydrator<'a> {
                     );
                 }
             }
+
+            // Zones produced by the index pruners carry no UID while zones produced by a full
+            // scan do; when both kinds meet in one result (an OR of a scanned and an indexed
+            // filter) the untagged ones belong to the query's own event type and must be
+            // hydrated as well, otherwise their rows silently disappear.
+            let untagged: Vec<usize> = candidate_zones
+                .iter()
+                .enumerate()
+                .filter(|(_, z)| z.uid().is_none())
+                .map(|(idx, _)| idx)
+                .collect();
+            if !untagged.is_empty() {
+                if let Some(uid) = self.plan.event_type_uid().await {
+                    let loader = ZoneValueLoader::new(self.plan.segment_base_dir.clone(), uid)
+                        .with_caches(self.caches);
+                    for idx in untagged {
+                        if let Some(zone) = candidate_zones.get_mut(idx) {
+                            loader.load_zone_values(std::slice::from_mut(zone), &columns);
+                        }
+                    }
+                }
+            }
         }
 
         if tracing::enabled!(tracing::Level::DEBUG) {
